@@ -11,7 +11,7 @@ import (
 
 func cmdVerify(args []string) {
 	fs := flag.NewFlagSet("verify", flag.ExitOnError)
-	timeout := fs.Duration("timeout", 10*time.Second, "per-query timeout")
+	timeout := fs.Duration("timeout", 20*time.Second, "per-query timeout")
 	verbose := fs.Bool("v", false, "verbose")
 	dump := fs.String("dump", "", "directory to dump queries of failed obligations")
 	kinds := fs.String("kinds", "", "comma-separated obligation kinds to check (default all)")
@@ -35,7 +35,9 @@ func cmdVerify(args []string) {
 	}
 	for _, key := range fs.Args() {
 		var res *UnitResult
-		if strings.HasPrefix(key, "lemma:") {
+		if strings.HasPrefix(key, "framelemma:") {
+			res = encodeFrameLemma(p, db, strings.TrimPrefix(key, "framelemma:"))
+		} else if strings.HasPrefix(key, "lemma:") {
 			res = encodeLemma(p, db, strings.TrimPrefix(key, "lemma:"))
 		} else {
 			fn := p.Func(key)
